@@ -6,6 +6,7 @@ import (
 	"go/constant"
 	"go/token"
 	"go/types"
+	"strings"
 
 	"golang.org/x/tools/go/ssa"
 )
@@ -353,6 +354,37 @@ func runC20(p *Prog, r *Report, tier string) {
 		r.Undecided("R-SWITCH", "anchor: data-type switch in addIPFIXMessage", p.pos(fd.Pos()), fmt.Sprintf("found %d switches over IEDataType", len(sws)))
 	} else {
 		checkIESwitch(p, r, pk, tb, "cmd/collector.addIPFIXMessage", sws[0], true, nil)
+	}
+	// every case renders "<name>: <value>" from elem.Name and the case's own accessor
+	if len(sws) == 1 {
+		for _, c := range clausesOf(pk, sws[0], tb) {
+			if c.Default {
+				continue
+			}
+			okPrint := false
+			ast.Inspect(&ast.BlockStmt{List: c.Body}, func(n ast.Node) bool {
+				call, ok := n.(*ast.CallExpr)
+				if !ok || types.ExprString(call.Fun) != "fmt.Fprintf" || len(call.Args) < 4 {
+					return true
+				}
+				hasName, hasVal := false, false
+				for _, a := range call.Args[2:] {
+					s := types.ExprString(a)
+					if s == "elem.Name" {
+						hasName = true
+					}
+					if strings.HasPrefix(s, "ie.Get") && strings.HasSuffix(s, "Value()") || s == "err" {
+						hasVal = true
+					}
+				}
+				if hasName && hasVal && types.ExprString(call.Args[0]) == "&buf" {
+					okPrint = true
+				}
+				return true
+			})
+			r.Check(okPrint, "R-EXHAUST.render", "cmd/collector.addIPFIXMessage: case "+strings.Join(c.Labels, ",")+" renders name and value", p.pos(c.Pos), "Fprintf(&buf, ..., elem.Name, <value>)",
+				"the case does not write the element's name and value into the rendered entry", false)
+		}
 	}
 	nloops, nbad := 0, 0
 	ast.Inspect(fd.Body, func(n ast.Node) bool {
